@@ -542,14 +542,20 @@ def run(tier):
         infos = {z: zmod.ZONE_INFO_MAP[z] for z in names if z in zmod.ZONE_INFO_MAP}
         items = [{"mode": "zic", "prop": "c20", "zone_infos": sh, "segments": {z: psegs[z] for z in sh}, "start_year": 2000, "until_year": 2038,
                   "grid_s": (86400 * 11 + 3600 * 5) if q else (86400 * 2 + 3600 * 5)} for sh in c03lib.shard_dict(infos, N)]
-        m = c03lib.run_py_workers(items, work / "pydb")
-        for f in m["failed"]:
-            v.inconclusive_because("zonedbpy worker failed: " + f["stderr"][-300:])
-        for w in m["witnesses"]:
-            w["key"] = w["key"].replace("c20:", "c20:zonedbpy-")
-            v.violation(w["key"], "checked-in python database: " + w["what"], w)
-        for k, n in m["counters"].items():
-            counters["zonedbpy." + k] = n
+        # "answers every year of its range": with the interpreter's default window, and with its other documented window
+        # (13 months: the year itself plus the following January), whose edge falls on Jan 1 instead of Dec 1
+        items13 = [dict(it, zs_kwargs={"viewing_months": 13}) for it in items]
+        for tagw, its in (("", items), ("window13.", items13)):
+            m = c03lib.run_py_workers(its, work / ("pydb" + tagw.strip(".")))
+            for f in m["failed"]:
+                v.inconclusive_because("zonedbpy worker failed: " + f["stderr"][-300:])
+            for w in m["witnesses"]:
+                w["key"] = w["key"].replace("c20:", "c20:zonedbpy-")
+                if tagw:
+                    w["zone_specifier_options"] = {"viewing_months": 13}
+                v.violation(w["key"], "checked-in python database: " + w["what"], w)
+            for k, n in m["counters"].items():
+                counters["zonedbpy." + tagw + k] = n
         # zinfo.py code path on a sample of dates
         for z in rng.sample(sorted(infos), 6 if q else 40):
             seg = [s for s in psegs[z][1:] if 946684800 + 86400 * 400 < s[0] < 2114380800]
@@ -571,7 +577,7 @@ def run(tier):
             if total != want[1] or mm.group(3) != want[3]:
                 v.violation("c20:zinfo-differs-from-zic", "zinfo.py answer differs from zic on the database's own recorded lines",
                             {"zone": z, "date": local.isoformat(), "zinfo": mm.group(0), "zic": list(want[1:])})
-    need = {"determinism_files": 10, "python_zones_compared": 300, "cross.sweep.cross_probes": 100000, "zonedbpy.probes": 100000}
+    need = {"determinism_files": 10, "python_zones_compared": 300, "cross.sweep.cross_probes": 100000, "zonedbpy.probes": 100000, "zonedbpy.window13.probes": 100000}
     for k, n in need.items():
         if counters.get(k, 0) < n:
             v.inconclusive_because("counter %s=%s below %s" % (k, counters.get(k, 0), n))
